@@ -12,7 +12,8 @@ SPEC = "c10_delayed_queue"
 # constants of the exhaustive / generation instances (MC_C10.tla, GenC10.tla): needed to replay their behaviours
 def F(*v):
     return {"q%d" % (i + 1): x for i, x in enumerate(v)}
-MC = {"MC_dpq_kf": {"prio": F(1, 0, 1), "ttl": F(3, 3, 5), "quota": 1, "w": 2, "qsize": 2},
+MC = {"MC_dpq_peek": {"prio": F(1, 0, 1), "ttl": F(3, 2, 3), "quota": 1, "w": 2, "qsize": 2},
+      "MC_dpq_kf": {"prio": F(1, 0, 1), "ttl": F(3, 3, 5), "quota": 1, "w": 2, "qsize": 2},
       "MC_dpq_kf_strand": {"prio": F(1, 0, 1), "ttl": F(3, 3, 5), "quota": 1, "w": 2, "qsize": 2}}
 GENS = {"GenC10_a": {"prio": F(1, 0, 1, 2, 0, 1), "ttl": F(3, 4, 6, 2, 5, 8), "quota": 1, "w": 2, "qsize": 2},
         "GenC10_b": {"prio": F(0, 0, 0, 0, 0, 0), "ttl": F(2, 4, 6, 4, 2, 8), "quota": 2, "w": 4, "qsize": 3},
@@ -27,7 +28,9 @@ def conf(c, mode):
 
 
 def hist_to_script(hist, c):
-    """driver-level step history of DpqI -> executor events"""
+    """driver-level step history of DpqI -> executor events: arrivals (held at the yield point or not), releases of held
+    goroutines, ticks with the delivery order of the timers due at that instant, and the roll-over goroutine held inside
+    its critical section while the other timers of the instant are delivered"""
     out = []
     for e in hist:
         if e["ev"] == "enq":
@@ -35,8 +38,13 @@ def hist_to_script(hist, c):
         elif e["ev"] == "park":
             out.append({"ev": "park", "id": e["i"]})
         elif e["ev"] == "tick":
-            out.append({"ev": "tick"})
-    while out and out[-1]["ev"] == "tick":      # the executor runs the history out by itself
+            out.append({"ev": "tick", "rev": bool(e.get("rev"))})
+        elif e["ev"] == "hold":             # decided when the roll-over runs: a property of the tick that woke it
+            k = max(i for i, x in enumerate(out) if x["ev"] == "tick")
+            out[k]["hold"] = True
+        elif e["ev"] == "unhold":
+            out.append({"ev": "unhold"})
+    while out and out[-1]["ev"] == "tick" and not out[-1].get("hold"):      # the executor runs the history out by itself
         out.pop()
     return out
 
@@ -66,14 +74,21 @@ def rand_history(rng, cfg, n):
 
     for _ in range(n):
         x = rng.random()
-        if x < 0.34:
-            h.append({"ev": "tick"})
+        if even and x < 0.05:               # the remedy is re-applied under the same name with another strategy / queue size
+            h.append({"ev": "reconf", "quota": rng.choice([1, 2, 3]), "w": rng.choice([2, 4]), "qsize": cfg["qsize"]})
+        elif x < 0.34:
+            # timers due at this instant are delivered oldest or youngest first; now and then the roll-over goroutine
+            # is held inside its critical section while the TTL timers of the instant are delivered
+            hold = rng.random() < 0.15
+            h.append({"ev": "tick", "rev": rng.random() < 0.4, "hold": hold})
+            if hold:
+                h.append({"ev": "unhold"})
         elif x < 0.42 and held:
             h.append({"ev": "park", "id": held.pop(rng.randrange(len(held)))})
         elif x < 0.52:
             h.append({"ev": "conc", "ops": [enq(False) for _ in range(rng.randint(2, 3))]})
         elif x < 0.60:
-            h.append({"ev": "race", "ops": [enq(False) for _ in range(rng.randint(1, 3))]})
+            h.append({"ev": "race", "ops": [enq(False) for _ in range(rng.randint(1, 3))], "rev": rng.random() < 0.4})
         else:
             h.append(enq())
     return h
@@ -164,9 +179,14 @@ def epochs_of(trace):
         for e in h:
             if e["ev"] == "reconf":
                 confs[e["ep"]] = dict(cfg, quota=e["quota"], w=e["w"], qsize=e["qsize"])
+        # the queue belongs to (remedy name, quota, window): epochs with the same strategy are one queue (the queue size
+        # is an argument of every call; the drivers keep it fixed per strategy)
+        strat = {}
         for ep, c in confs.items():
-            ids = {e["id"] for e in h if e["ev"] == "begin" and e.get("ep", 0) == ep}
-            if len(confs) > 1 and not ids:
+            strat.setdefault((c["quota"], c["w"]), (c, set()))[1].add(ep)
+        for c, eps in strat.values():
+            ids = {e["id"] for e in h if e["ev"] == "begin" and e.get("ep", 0) in eps}
+            if len(strat) > 1 and not ids:
                 continue
             ph = [e for e in h if e["ev"] in ("reset", "adv", "quiet") or (e["ev"] in ("begin", "end", "pop") and e["id"] in ids)]
             groups.setdefault(json.dumps(c, sort_keys=True), []).append((hi, ph))
@@ -283,7 +303,8 @@ def run(ctx):
     good = [("MC_dpq_a", "I=>P 3 requests, quota 1, window 2, queue 2"), ("MC_dpq_b", "I=>P 3 requests equal priority, quota 1, queue 1 (full queue reached)")]
     if T:
         good.append(("MC_dpq_large", "I=>P 4 requests, quota 2, queue 2"))
-    bad = [("MC_dpq_kf", "pinned hand-off must violate P"), ("MC_dpq_kf_strand", "pinned hand-off must strand a popped request")]
+    bad = [("MC_dpq_kf", "pinned hand-off must violate P"), ("MC_dpq_kf_strand", "pinned hand-off must strand a popped request"),
+           ("MC_dpq_peek", "looking at the hand-over channel before re-taking the mutex must violate P")]
     def mc(it):
         if it in good:
             return ctx.tlc_exhaustive(sd, "MC_C10", it[0] + ".cfg", workers=4 if not T else 8, timeout=3000, label=it[1],
@@ -305,7 +326,8 @@ def run(ctx):
                     c = dict(c, w=c["w"] * 2, ttl={k: v * 2 for k, v in c["ttl"].items()})
                 evs = hist_to_script(cxs[0], c)
                 if mode == "plugin":
-                    evs = [x for e in evs for x in ([e, e] if e["ev"] == "tick" else [e])]
+                    # a tick of the model = two ticks (one second); what happens at it happens at the second one
+                    evs = [x for e in evs for x in ([{"ev": "tick"}, e] if e["ev"] == "tick" else [e])]
                 scripts.append({"config": conf(c, mode), "histories": [[{"ev": "reset", "now": 0}] + evs]})
                 names.append(it[0] + "/" + mode)
     # reconfiguration at plugin level: the remedy is re-applied under the same name with the quota raised / lowered
